@@ -175,3 +175,262 @@ def replay_and_validate(prop, binary, name, scenarios, dev=(), mutate=None, time
     if not v["accepted"]:
         raise vlib.ToolError(f"trace {name} not fully consumed: {v['out']}")
     return v["reports"][-1], tf, sf, {"harness_s": round(t1 - t0, 2), "validate_s": v["wall_s"]}
+
+
+# ---------------------------------------------------------------------------------------------------
+# the check
+
+# deviations that describe the code as it is built today (schedules are generated from, and traces are
+# validated against, the as-built model; the intended design is the model with Deviations = {})
+AS_BUILT = ("ExtGetErrorDeletesStaging",)
+
+PANIC_SIG = {"class": "panic", "op": "resolve_latest", "cause": "detached-manifest-in-v2-listing"}
+
+ASSUMPTIONS = [
+    "atomicity grain: one storage / external-store / lease call is one step; the object store provides atomic "
+    "put-if-absent, rename-if-absent, copy and delete (object_store::memory::InMemory behind the gate store)",
+    "GETs of manifests are not interleaving points (plain reads pass the gate unblocked; they are recorded and checked)",
+    "every writer performs one operation; tables have one fragment of 4 setup rows; versions <= 5",
+    "a failed LIST of lance_io::ObjectStore::list and a failed HEAD of the object reader are retried by lance (5 / 3 "
+    "times): the fault budgets used are smaller than those limits",
+    "lock-based handler: the lease of a live holder does not expire (otherwise it does not provide atomic creation); "
+    "the lease of a crashed holder may expire",
+    "UnsafeCommitHandler is modelled and replayed but exempt from C02 (as the property states)",
+    "cleanup (C08) does not run concurrently; detached commits only with the conditional-put handler",
+    "trusted: TLC, the gate store's own bookkeeping (sequence numbers under one mutex, content hashes), tokio's "
+    "current-thread scheduler for determinism",
+]
+
+
+def _sample(scs, cap, rnd):
+    """Keep at most `cap` schedules: all with a fault/crash step first (seeded choice), then fault-free ones."""
+    if len(scs) <= cap:
+        return list(scs)
+    scs = list(scs)
+    rnd.shuffle(scs)
+    # prefer long schedules and schedules with faults: they cover the retry / repair paths
+    scs.sort(key=lambda x: (-(sum(1 for st in x[0] if st[1] != "ok") > 0), -len(x[0])))
+    head = scs[: cap * 2 // 3]
+    tail = scs[cap * 2 // 3:]
+    rnd.shuffle(tail)
+    return head + tail[: cap - len(head)]
+
+
+def run_check(prop, tier, replay, families, teeth=(), cap_quick=90, cap_thorough=100000, sim_thorough=400,
+              expect_pcs=(), extra_assumptions=()):
+    """families: list of fam() dicts (with optional key 'asbuilt': deviations to generate/validate with).
+    teeth: list of (fam, invariant) model runs that are EXPECTED to violate `invariant` (sanity of the invariants
+    and documented assumption breaks); they are model-only."""
+    t0 = time.time()
+    out = vlib.Outcome(prop)
+    rnd = random.Random(1000 + vlib.seed())
+    binary, build_s = vlib.harness_build("vh_commit")
+    if replay:
+        return _replay_one(prop, tier, replay, binary, out, t0)
+    quick = tier == "quick"
+    cap = cap_quick if quick else cap_thorough
+    mc_info = []
+    states = trans = 0
+    gen_total = 0
+    scenarios = []
+    actions_seen = {}
+
+    def mc_and_gen(f):
+        asb = tuple(f.get("asbuilt", AS_BUILT if f["handler"] == "external" else ()))
+        fa = dict(f)
+        fa["dev"] = asb
+        tmo = 1500 if quick else 3000
+        if not asb:
+            # intended design == as-built model: one TLC run checks the invariants and prints the schedules
+            name = f"{prop}-mcgen-{f['name']}"
+            r = vlib.tlc_mc(name, "MC_LanceCommit", cfg_text(f, MC_TAIL.replace("INVARIANTS ", "INVARIANTS GenPrint "), ()),
+                            workers=1, timeout=tmo, xmx="4g")
+            text = open(r["out"]).read()
+            acts = {}
+            for m in _RE_ACT.finditer(text):
+                acts[m.group(1)] = acts.get(m.group(1), 0) + int(m.group(3))
+            r["actions"] = acts
+            vals = vlib._printed(text, "SCN")
+            scs = [(v["steps"], {"res": v["res"], "ver": v["ver"]}) for v in vals]
+            st = {}
+        else:
+            r = model_check(prop, f, workers=2, timeout=tmo, dev=())
+            scs, st = generate(prop, fa, timeout=tmo)
+        sims = []
+        if not quick and sim_thorough:
+            sims, _ = simulate(prop, fa, sim_thorough, timeout=3000)
+        return f, asb, r, scs, sims, st
+
+    stage = {"build_s": build_s}
+    t1 = time.time()
+    with cf.ThreadPoolExecutor(max_workers=5) as ex:
+        results = list(ex.map(mc_and_gen, families))
+    stage["model_check_and_generate_s"] = round(time.time() - t1, 1)
+    sid = 0
+    for f, asb, r, scs, sims, st in results:
+        if r["violated"]:
+            out.report({"spec": "LanceCommit", "invariant": r["violated"], "family": f["name"]},
+                       f"the intended design violates {r['violated']} for {f['name']} (see {r['out']})", {"family": f})
+        states += r.get("distinct", 0)
+        trans += r.get("generated", 0)
+        for k, n in r["actions"].items():
+            actions_seen[k] = actions_seen.get(k, 0) + n
+        seen = set()
+        allscs = []
+        for x in scs + sims:
+            k = json.dumps(x[0])
+            if k not in seen:
+                seen.add(k)
+                allscs.append(x)
+        gen_total += len(allscs)
+        chosen = _sample(allscs, cap, rnd)
+        mc_info.append({"family": f["name"], "distinct": r.get("distinct"), "generated": r.get("generated"),
+                        "depth": r.get("depth"), "wall_s": r["wall_s"], "schedules_generated": len(allscs),
+                        "schedules_replayed": len(chosen), "as_built_deviations": list(asb)})
+        for steps, exp in chosen:
+            sc = scenario(f, sid, steps, exp)
+            sc["asbuilt"] = list(asb)
+            scenarios.append(sc)
+            sid += 1
+    # sanity runs: the invariants can fail (model only)
+    teeth_info = []
+
+    def tooth(fi):
+        f, inv = fi
+        cfgt = cfg_text(f, "INVARIANTS " + inv)
+        r = vlib.tlc_mc(f"{prop}-teeth-{f['name']}-{inv}", "MC_LanceCommit", cfgt, workers=2, timeout=1500, xmx="4g",
+                        coverage=False)
+        return f, inv, r
+    t1 = time.time()
+    with cf.ThreadPoolExecutor(max_workers=4) as ex:
+        for f, inv, r in ex.map(tooth, teeth):
+            teeth_info.append({"family": f["name"], "invariant": inv, "violated": r["violated"], "distinct": r.get("distinct")})
+            if r["violated"] != inv:
+                raise vlib.ToolError(f"sanity run {f['name']} was expected to violate {inv}, got {r['violated']}: "
+                                     f"the invariant has no teeth ({r['out']})")
+    stage["sanity_runs_s"] = round(time.time() - t1, 1)
+    if not scenarios:
+        raise vlib.ToolError("no scenarios generated")
+    # group by as-built deviation set (the trace specification takes Deviations as a constant), then shard
+    groups = {}
+    for sc in scenarios:
+        groups.setdefault(tuple(sc["asbuilt"]), []).append(sc)
+    shards = []
+    nshard = 6
+    for dev, scs in groups.items():
+        k = max(1, min(nshard, len(scs) // 40 + 1))
+        for i in range(k):
+            part = scs[i::k]
+            if part:
+                shards.append((dev, part))
+
+    def run_shard(i_shard):
+        i, (dev, part) = i_shard
+        rep, tf, sf, tm = replay_and_validate(prop, binary, f"s{i}", part, dev=dev, timeout=1500 if quick else 6000)
+        return i, dev, part, rep, tf, tm
+    t1 = time.time()
+    with cf.ThreadPoolExecutor(max_workers=6) as ex:
+        shard_results = list(ex.map(run_shard, list(enumerate(shards))))
+    stage["replay_and_validate_s"] = round(time.time() - t1, 1)
+    stage["harness_s"] = round(sum(x[5]["harness_s"] for x in shard_results), 1)
+    stage["validate_cpu_s"] = round(sum(x[5]["validate_s"] for x in shard_results), 1)
+
+    events = 0
+    counts = {}
+    cov = {}
+    accepted = 0
+    nontrivial = set()
+    samples = []
+    informational = {}
+    bad_scn = set()
+    by_id = {sc["id"]: sc for sc in scenarios}
+    for i, dev, part, rep, tf, tm in shard_results:
+        events += rep["events"]
+        for k, n in rep["counts"].items():
+            counts[k] = counts.get(k, 0) + n
+        for k, n in rep["cov"].items():
+            cov[k] = cov.get(k, 0) + n
+        lines = None
+        for b in rep["bad"]:
+            sc = by_id.get(b["scn"], {})
+            bad_scn.add(b["scn"])
+            if lines is None:
+                lines = open(tf).read().splitlines()
+            ev = json.loads(lines[b["pos"] - 1]) if 0 < b["pos"] <= len(lines) else {}
+            ev.pop("vs", None)
+            via = "+".join(dev) if (dev and sc.get("handler") == "external") else "none"
+            payload = {"scenario": sc, "bad": b, "event": ev, "trace_deviations": list(dev)}
+            if b["kind"] == "invariant":
+                inv = b["sig"][0]
+                sig = {"invariant": inv, "via": via}
+                if prop in INV_PROPS.get(inv, ()):
+                    out.report(sig, f"invariant {inv} is violated on an implementation trace (family {sc.get('family')}, "
+                                    f"after {b['sig'][1:]}): {b['detail']}", payload)
+                else:
+                    informational[json.dumps(sig)] = informational.get(json.dumps(sig), 0) + 1
+            elif b["kind"] == "deviation":
+                out.report(PANIC_SIG, f"panic inside lance at {b['detail']} (family {sc.get('family')})", payload)
+            elif b["kind"] == "broken-table":
+                # always accompanies an invariant violation (reported above); kept as information
+                sig = {"class": "broken-table", "via": via}
+                informational[json.dumps(sig)] = informational.get(json.dumps(sig), 0) + 1
+            else:
+                out.report({"kind": "nonconformance", "sig": b["sig"]},
+                           f"the implementation trace is not a behaviour of LanceCommit: {b['sig']} {b['detail']} "
+                           f"(family {sc.get('family')})", payload)
+        if len(samples) < 4 and part:
+            # one scenario with its recorded trace, verbatim (snapshots trimmed)
+            want = part[len(part) // 2]["id"]
+            if lines is None:
+                lines = open(tf).read().splitlines()
+            tr = []
+            cur = None
+            for ln in lines:
+                e = json.loads(ln)
+                if e.get("ev") == "reset":
+                    cur = e.get("id")
+                if cur == want and e.get("ev") != "drain":
+                    e.pop("vs", None)
+                    tr.append(e)
+            samples.append({"scenario": by_id[want], "trace": tr[:60]})
+    accepted = len(scenarios) - len(bad_scn)
+    for sc in scenarios:
+        if sc["id"] not in bad_scn and (any(st[1] != "ok" for st in sc["steps"]) or len(sc["steps"]) >= 8):
+            nontrivial.add((sc["family"], json.dumps(sc["steps"])))
+    # vacuity: every storage-call kind this property is about must have been exercised on the implementation
+    missing = [pc for pc in expect_pcs if cov.get(pc, 0) == 0]
+    if missing:
+        raise vlib.ToolError(f"vacuous run: program points never reached on the implementation: {missing}")
+    if counts.get("publications", 0) == 0 or counts.get("finals", 0) == 0:
+        raise vlib.ToolError("vacuous run: no version was ever published / audited")
+    rc = out.finish()
+    vlib.write_evidence(prop, tier, "model_checking", {
+        "states": states, "transitions": trans, "traces_validated_against_impl": accepted, "samples": samples,
+        "evaluations": len(scenarios), "distinct_nontrivial": len(nontrivial),
+        "rule": "one schedule per distinct completed state of the TLC model of each family (GEN run, ghost history hidden by "
+                "VIEW)" + ("" if quick else " plus seeded -simulate runs") + "; a seeded sample of at most "
+                f"{cap} per family is replayed on the real Dataset APIs through the gate store; distinct = distinct "
+                "(family, schedule); non-trivial = accepted by the validator and containing a fault/crash step or at least 8 "
+                "gated calls (i.e. reaching the commit section)",
+        "exhaustive": False,
+        "exhaustive_note": "the model check is exhaustive for the stated bounds; the replay covers one schedule per "
+                           "distinct final model state (sampled in the quick tier), not every interleaving",
+        "model_runs": mc_info, "model_actions_taken": actions_seen, "sanity_runs": teeth_info,
+        "schedules_generated": gen_total, "events_validated": events, "event_counts": counts,
+        "implementation_program_points": cov, "as_built_deviations": list(AS_BUILT),
+        "findings_of_other_properties_seen": informational, "stage_wall_s": stage,
+    }, time.time() - t0, len(out.violations), ASSUMPTIONS + list(extra_assumptions))
+    return rc
+
+
+def _replay_one(prop, tier, replay, binary, out, t0):
+    payload = json.load(open(replay))
+    case = payload.get("case", payload)
+    sc = case["scenario"]
+    dev = tuple(case.get("trace_deviations", sc.get("asbuilt", ())))
+    rep, tf, sf, tm = replay_and_validate(prop, binary, "replay", [sc], dev=dev)
+    for b in rep["bad"]:
+        print("replay:", json.dumps(b))
+        out.report(payload.get("signature", {"kind": b["kind"], "sig": b["sig"]}), f"replayed: {b}", case)
+    print(f"replay of scenario {sc.get('id')} ({sc.get('family')}): {len(rep['bad'])} failure(s); trace {tf}")
+    return out.finish()
